@@ -178,7 +178,8 @@ class EdgeListVectorizer(BaseEstimator, TransformerMixin):
         ]
 
         matrix = scipy.sparse.coo_matrix(
-            (edge_list[valid_edges, 2].astype(float), (row_indices, col_indices))
+            (edge_list[valid_edges, 2].astype(float), (row_indices, col_indices)),
+            shape=self._train_matrix.shape,
         ).tocsr()
         matrix.sum_duplicates()
         return matrix
